@@ -170,6 +170,8 @@ def rename_later(defs):
 SUM_VARS = """Variable F : realFieldType.
 Variables m G : nat.
 Variables (w : 'I_G -> F) (mean_g var_g : 'I_G -> 'cV[F]_m) (cov_g : 'I_G -> 'M[F]_m).
+Variable d : nat.
+Variables (gmean_g gvar_g : 'I_G -> 'M[F]_(m, d)).
 """
 
 
@@ -178,6 +180,9 @@ def sum_program(repo):
     "compute_mean_of_points": M(("comp", "mean_g"), "m", "1"), "compute_variance_of_points": M(("comp", "var_g"), "m", "1"),
     "compute_covariance_of_points": M(("comp", "cov_g"), "m", "m"),
     "compute_mean_and_variance_of_points": (M(("comp", "mean_g"), "m", "1"), M(("comp", "var_g"), "m", "1")),
+    "compute_grad_mean_of_points": M(("comp", "gmean_g"), "m", "d"), "compute_grad_variance_of_points": M(("comp", "gvar_g"), "m", "d"),
+    "compute_mean_variance_grad_of_points": (M(("comp", "mean_g"), "m", "1"), M(("comp", "var_g"), "m", "1"),
+                                             M(("comp", "gmean_g"), "m", "d"), M(("comp", "gvar_g"), "m", "d")),
   }
   ex = Exec(os.path.join(repo, SUMPY), "GaussianProcessSum", {"weights": None, "gaussian_process_list": None}, {}, {"__component__": comp})
   pts = M(("var", "Xs"), "m", "d")
@@ -187,6 +192,11 @@ def sum_program(repo):
   mv = ex.run("compute_mean_and_variance_of_points", [pts])
   ex.define("sum_mv_mean", mv[0])
   ex.define("sum_mv_var", mv[1])
+  ex.define("sum_grad_mean", ex.run("compute_grad_mean_of_points", [pts]))
+  ex.define("sum_grad_var", ex.run("compute_grad_variance_of_points", [pts]))
+  j = ex.run("compute_mean_variance_grad_of_points", [pts])
+  for nm, v in zip(("sum_j_mean", "sum_j_var", "sum_j_grad_mean", "sum_j_grad_var"), j):
+    ex.define(nm, v)
   return ex
 
 
@@ -293,16 +303,22 @@ def selfcheck(progs, exs, exl, rng):
     nn = gp1.num_sampled
     hd.append_historical_data(gp1.points_sampled.copy(), numpy.array([rng.uniform(-1, 1) for _ in range(nn)]), numpy.array([rng.choice([1e-3, 1e-2]) for _ in range(nn)]))
     gps.append(GaussianProcess(C2RadialMatern([rng.uniform(0.5, 2)] + [rng.uniform(0.3, 0.9) for _ in range(gp1.dim)]), hd))
-  ws = [rng.uniform(0.1, 0.9) for _ in gps]
+  ws = [rng.choice([rng.uniform(0.1, 0.9), rng.uniform(-0.9, -0.1), 0.0, 1e-15]) for _ in gps]   # any sign, zero, tiny
   sgp = GaussianProcessSum(gps, ws)
   env = {"__G__": len(gps), "w": ws, "mean_g": [g.compute_mean_of_points(xs)[:, None] for g in gps],
-         "var_g": [g.compute_variance_of_points(xs)[:, None] for g in gps], "cov_g": [g.compute_covariance_of_points(xs) for g in gps]}
+         "var_g": [g.compute_variance_of_points(xs)[:, None] for g in gps], "cov_g": [g.compute_covariance_of_points(xs) for g in gps],
+         "gmean_g": [g.compute_grad_mean_of_points(xs) for g in gps], "gvar_g": [g.compute_grad_variance_of_points(xs) for g in gps]}
   for nme, v in exs.defs:
     env[nme] = mx.ev(v.node, env)
   close(env["sum_mean"], sgp.compute_mean_of_points(xs), "GPSum.sum_mean")
   close(env["sum_var"], sgp.compute_variance_of_points(xs), "GPSum.sum_var")
   close(env["sum_cov"], sgp.compute_covariance_of_points(xs), "GPSum.sum_cov")
   close(env["sum_mv_var"], sgp.compute_mean_and_variance_of_points(xs)[1], "GPSum.sum_mv_var")
+  close(env["sum_mv_mean"], sgp.compute_mean_and_variance_of_points(xs)[0], "GPSum.sum_mv_mean")
+  close(env["sum_grad_mean"], sgp.compute_grad_mean_of_points(xs), "GPSum.sum_grad_mean")
+  close(env["sum_grad_var"], sgp.compute_grad_variance_of_points(xs), "GPSum.sum_grad_var")
+  for k, nme in enumerate(("sum_j_mean", "sum_j_var", "sum_j_grad_mean", "sum_j_grad_var")):
+    close(env[nme], sgp.compute_mean_variance_grad_of_points(xs)[k], "GPSum." + nme)
   rep.append("GenGP.GPSum:selfcheck-ok")
   # likelihood
   from libsigopt.compute.log_likelihood import GaussianProcessLogMarginalLikelihood
